@@ -213,27 +213,33 @@ def gen_val(rng, n, profile, pools, tables):
     phashes = [v for v in ptab.values() if isinstance(v, bytes)] + [b"\x00", b"\x09"]
     ops = []
     nsaved = 0
+    mine_k, mine_p = [], []   # hashes of what this trace saved: loads prefer them
     for _ in range(n):
         x = rng.below(12)
         if x < 3:
             ks = rng.choice(kl)
             if not ks and rng.chance(2, 3):
                 ks = kl[1]
+            if isinstance(ktab.get(tuple(ks)), bytes):
+                mine_k.append(ktab[tuple(ks)])
             ops.append(("SK " + keylist_line(ks), "VSaveKeys [%s]" % "; ".join(cb(k) for k in ks), "save"))
             nsaved += 1
         elif x < 6:
             ps = rng.choice(pl)
             if not ps and rng.chance(2, 3):
                 ps = pl[1]
+            if isinstance(ptab.get(tuple(ps)), bytes):
+                mine_p.append(ptab[tuple(ps)])
             ops.append(("SP " + powlist_line(ps), "VSavePows [%s]" % "; ".join(str(p) for p in ps), "save"))
         elif x < 8:
-            h = rng.choice(khashes)
+            h = rng.choice(mine_k) if mine_k and rng.chance(2, 3) else rng.choice(khashes)
             ops.append(("LK " + hx(h), "VLoadKeys " + cb(h), "load"))
         elif x < 9:
-            h = rng.choice(phashes)
+            h = rng.choice(mine_p) if mine_p and rng.chance(2, 3) else rng.choice(phashes)
             ops.append(("LP " + hx(h), "VLoadPows " + cb(h), "load"))
         elif x < 11 or profile == "conc":
-            a, b = rng.choice(khashes), rng.choice(phashes)
+            a = rng.choice(mine_k) if mine_k and rng.chance(3, 4) else rng.choice(khashes)
+            b = rng.choice(mine_p) if mine_p and rng.chance(3, 4) else rng.choice(phashes)
             ops.append(("LV %s %s" % (hx(a), hx(b)), "VLoadVals %s %s" % (cb(a), cb(b)), "load"))
         else:
             i = rng.below(nsaved + 1)
@@ -270,6 +276,42 @@ CLASS_KEYS = {2: ("action-nil-pubkey-not-recorded", "a nil PubKey is stored as '
                   "kind for the same height/round is accepted and replaces the first"),
               5: ("action-proposal-key-not-recorded", "a proposal does not record/check the signing key: a proposal and a vote of "
                   "the same height/round with different keys are both accepted")}
+
+
+def race_search(c, rng, pools, tables):
+    import subprocess
+    c.sync_gosum()
+    rb = os.path.join(vcheck.BIN, "h_c16_race")
+    rc, out = vcheck.run(["go", "build", "-race", "-tags", vcheck.GUARD_TAG, "-o", rb, "./c16"], cwd=vcheck.HARNESS,
+                         env=vcheck.goenv(), timeout=1500)
+    c.checker_cmds.append("cd harness && go build -race -tags verif -o ../bin/h_c16_race ./c16")
+    if rc != 0:
+        c.notes.append("race-detector build failed: " + out[-300:])
+        return []
+    found = []
+    for st in STORES:
+        lines, allops = [], []
+        for rep in range(6):
+            sch = "weak" if rep % 2 else "simple"
+            lines.append("C %s %s" % (st, sch))
+            for g in range(16):
+                ops = gen_val(rng, 6, "conc", pools, tables[sch]) if st == "val" else GEN[st](rng, 6, "guarded")
+                for o in ops:
+                    lines.append("%d %s" % (g, o[0]))
+                    allops.append("%d %s" % (g, o[0]))
+            lines.append("E")
+        p = subprocess.run([rb], input="\n".join(lines) + "\n", stdout=subprocess.PIPE, stderr=subprocess.PIPE, text=True,
+                           timeout=600, env=dict(vcheck.goenv(), GORACE="halt_on_error=0"))
+        if "DATA RACE" in p.stderr or (p.returncode != 0 and "fatal error" in p.stderr):
+            fn = re.findall(r"tmmemstore\.\(\*(\w+)\)\.(\w+)\(\)", p.stderr)
+            where = "%s.%s" % fn[0] if fn else st
+            kind = "data race" if "DATA RACE" in p.stderr else "runtime fatal error"
+            found.append(("race-%s" % where,
+                          "%s inside the real %s store under concurrent use (%s): not a linearizable object on this schedule"
+                          % (kind, st, ", ".join(sorted(set("%s.%s" % f for f in fn))[:4])),
+                          {"store": st, "harness_input": lines, "stderr": p.stderr[:3000],
+                           "how": "bin/h_c16_race < (harness_input lines)   # built with go build -race"}))
+    return found
 
 
 def parse_blocks(out):
@@ -371,13 +413,13 @@ def main(argv):
     if not cases:
         for w in CORPUS:
             cases.append({"name": w["name"], "store": w["store"], "scheme": "simple", "mode": "seq", "profile": "corpus", "ops": w["ops"]})
-        n_seq = 24 if quick else 300
-        n_conc = 24 if quick else 200
+        n_seq = 40 if quick else 400
+        n_conc = 30 if quick else 250
         for st in STORES:
             for j in range(n_seq):
                 profile = "free" if j % 3 == 2 else "guarded"
                 sch = "weak" if j % 2 else "simple"
-                n = 6 + rng.below(25)
+                n = 6 + rng.below(30)
                 if st == "val":
                     ops = gen_val(rng, n, profile, pools, tables[sch])
                 else:
@@ -508,6 +550,15 @@ def main(argv):
                           "model and real store differ at op %d of case %s (%s -> %s); the monitor accepts the implementation's trace"
                           % (cs["diff"] - 1, cs["name"], cs["ops"][cs["diff"] - 1][0], cs["obs"][cs["diff"] - 1]),
                           {"cases": [cs], "op_index": cs["diff"] - 1})
+    # Failing-input search for a broken lock discipline (and always in the thorough tier): the same stores under
+    # heavier concurrent load with the Go race detector; a reported data race inside tmmemstore is a concrete
+    # schedule on which the store is not a linearizable object.
+    races = []
+    lock_broken = (not proved) and "StoreLocks" in getattr(c, "broken", {}).get("file", "")
+    if (lock_broken or not quick) and not c.replay:
+        races = race_search(c, rng, pools, tables)
+        for key, what, rp in races[:3]:
+            c.report(key, what, rp)
     if not proved and not c.violations:
         b = getattr(c, "broken", {"file": "?", "log": ""})
         c.fail_obligation("Properties/C16.v (%s)" % b["file"], b["log"], {"searched_cases": len(cases)})
@@ -529,7 +580,7 @@ def main(argv):
         "evaluations": nops,
         "cases": len(cases),
         "distinct_nontrivial": distinct,
-        "rule": "per store: random op sequences of 6-30 ops over small key pools (heights 0-4, rounds 0-1, 4 hashes incl. empty, "
+        "rule": "per store: random op sequences of 6-35 ops over small key pools (heights 0-4, rounds 0-1, 4 hashes incl. empty, "
                 "4 keys incl. empty and nil, empty signatures) in a 'guarded' and a 'free' profile, validator store under the real "
                 "SimpleHashScheme and a colliding/failing scheme; plus the four finding witnesses; non-trivial = contains a save",
         "traces_validated_against_impl": len([cs for cs in seq if cs.get("diff", 1) == 0]),
